@@ -335,3 +335,39 @@ def replay(rep, tools, j):
         print('oracle:', json.dumps(judge(kind, spec.stdin, clean.calls(), idx, sp, r, fired)[0], indent=1))
     finally:
         scen.cleanup()
+
+
+def unmatched_witness(rep, tools):
+    """Known finding F27 (class `stdin-unmatched-dropped`): a message read from stdin that NO rule matches - or for which the
+    configuration has no `stdin` block at all - is dropped: exit status 0, stored nowhere ("0 only if the message was stored intact at
+    its destination or deliberately discarded").  The repository's own tests pin this behaviour (stdin.sh "maildir rules are skipped",
+    "match date modified": both expect exit 0), so it is listed, not repaired.  Fault-free runs; exactly this outcome is the finding,
+    exit 75 with nothing stored is the repaired behaviour, anything else is a violation."""
+    cases = [('no-rule-matches', 'stdin {\n\tmatch header "X-Skip" /yes/ move "%s/dst"\n}\n' % R),
+             ('no-stdin-block', 'maildir "%s/dst" {\n\tmatch all move "%s/other"\n}\n' % (R, R)),
+             ('break-only', 'stdin {\n\tmatch all break\n\tmatch all move "%s/dst"\n}\n' % R)]
+    stat = {'runs': 0, 'dropped_with_exit_0': 0, 'reported': 0}
+    msg = message(120, False)
+    for name, conf in cases:
+        tree = {}
+        tree.update(proc.maildir_tree('dst', {}))
+        tree.update(proc.maildir_tree('other', {}))
+        scen = ws.Spec('unmatched/' + name, conf, [], tree=tree, stdin=msg, args=['-'], kind='stdin', stdin_file=True).build(tools)
+        try:
+            r = scen.run()
+            files = maildir_files(r.final)
+            spool = ws.tmp_entries(r.final)
+        finally:
+            scen.cleanup()
+        stat['runs'] += 1
+        payload = {'family': 'stdin-unmatched', 'scenario': name, 'config': conf, 'exit_status': r.status, 'files_in_maildirs': sorted(files),
+                   'left_in_TMPDIR': spool, 'stderr': r.err[-200:].decode('latin-1'),
+                   'what': 'a message read from stdin that no rule matches: exit status %r, stored in %d places' % (r.status, len(files))}
+        if files or spool or r.status not in (0, 75):
+            rep.finding('unlisted', payload)
+        elif r.status == 0:
+            stat['dropped_with_exit_0'] += 1
+            rep.finding('stdin-unmatched-dropped', payload)
+        else:
+            stat['reported'] += 1
+    return stat
